@@ -837,6 +837,9 @@ func Resize(a *Term, w int, sign bool) *Term {
 
 // ---- floating point ----
 
+// FPValue returns the value of a floating-point constant.
+func FPValue(t *Term) float64 { return fpval(t) }
+
 func fpval(t *Term) float64 {
 	if t.Sort.W == 32 {
 		return float64(math.Float32frombits(uint32(t.Val)))
